@@ -37,7 +37,7 @@ func c08r1(r *R) {
 			case hdr:
 				nHdr++
 				var why []string
-				if !p.holds("!(" + ppRH + " != nil)") && !p.holds("("+ppRH+" == nil)") {
+				if !p.holds("!("+ppRH+" != nil)") && !p.holds("("+ppRH+" == nil)") {
 					why = append(why, "header read error not excluded")
 				}
 				if !p.holds("!$0.header.IsLocal") {
@@ -223,7 +223,9 @@ func c08r4(r *R) {
 		hasWT := p.eventIndex(0, "call", eq(wt)) >= 0
 		pos := p.holds("($0.readHeaderTimeout > 0)")
 		noDL := p.holds("!invoke context.Context.Deadline($1)#1")
-		later := p.hasCond(func(c string) bool { return strings.HasPrefix(c, "((time.Time).Sub(invoke context.Context.Deadline($1)#0, ") && strings.HasSuffix(c, " > $0.readHeaderTimeout)") })
+		later := p.hasCond(func(c string) bool {
+			return strings.HasPrefix(c, "((time.Time).Sub(invoke context.Context.Deadline($1)#0, ") && strings.HasSuffix(c, " > $0.readHeaderTimeout)")
+		})
 		nTO++
 		if pos && (noDL || later) && !hasWT {
 			whyTO = append(whyTO, "timeout > 0 but the read is not bounded by it")
@@ -280,7 +282,9 @@ func c08r4(r *R) {
 				return
 			}
 			n++
-			r.check(guardedBy(a.Block(), func(s string) bool { return strings.Contains(s, "ProxyProtocolConfig != nil") && !strings.HasPrefix(s, "!") }), "Listener.Listen#proxyproto", a.Pos(), "PROXY listener stacked iff ProxyProtocolConfig is set", "PROXY listener not guarded by the configuration")
+			r.check(guardedBy(a.Block(), func(s string) bool {
+				return strings.Contains(s, "ProxyProtocolConfig != nil") && !strings.HasPrefix(s, "!")
+			}), "Listener.Listen#proxyproto", a.Pos(), "PROXY listener stacked iff ProxyProtocolConfig is set", "PROXY listener not guarded by the configuration")
 		})
 		if n == 0 {
 			r.bad("Listener.Listen#proxyproto", fn.Pos(), "PROXY protocol listener is never installed")
@@ -491,7 +495,9 @@ func c08r5(r *R) {
 					continue
 				}
 				seen[fam.n] = true
-				if !p.hasCond(func(c string) bool { return strings.HasPrefix(c, "!(builtin len(") && strings.HasSuffix(c, " < "+fam.n+")") }) {
+				if !p.hasCond(func(c string) bool {
+					return strings.HasPrefix(c, "!(builtin len(") && strings.HasSuffix(c, " < "+fam.n+")")
+				}) {
 					why = append(why, "address bytes used without checking the tail holds "+fam.n+" bytes")
 				}
 			}
